@@ -5,8 +5,10 @@
    number of log records after the last checkpoint.
    vacuum = commit; READ PHASE (every active payload into a HashMap keyed by frame id, each read
    guarded by validate_frame_bounds); WRITE PHASE (one pass over toc.frames, in place, from the data
-   start); data_end = cursor; clear catalogs; rebuild_indexes(&[], &[]) which starts writing the
-   index image at payload_region_end() = cached_payload_end -- a field vacuum does NOT update.
+   start); data_end = cursor; cached_payload_end = cursor (since fix f791181; before it the field kept
+   the pre-compaction end: `vacuum_pre_f791181` below, historical); clear catalogs;
+   rebuild_indexes(&[], &[]) which starts writing the index image at payload_region_end() =
+   cached_payload_end; then (since fix 4c0da7f) sketch track rewritten, TOC, log checkpoint, header.
    The index image itself (time index, Tantivy segments, vector index, ...) is an input `ix`
    (any byte string): the model decides WHERE it goes, not what the encoders produce.
    Not modelled: the TOC/footer bytes after the index image, the log region, a log growth caused by
@@ -141,20 +143,32 @@ Definition checkpoint (st : vstate) : vstate :=
   mkVS (vs_start st) (vs_frames st) (vs_region st) (vs_data_end st) (vs_cpe st) (vs_footer st)
        (vs_lex st) (vs_vec st) 0.
 
-(* the rewrite alone (read phase, write phase, data_end = cursor) *)
+(* the rewrite alone: read phase, write phase, "self.data_end = cursor; self.cached_payload_end = cursor;" *)
 Definition rewrite (st : vstate) : outcome vstate :=
   match read_phase st (vs_frames st) [] with
   | Ok m =>
       let '(fs', cursor, region') := write_phase (vs_start st) m (vs_frames st) (vs_start st) (vs_region st) in
-      Ok (mkVS (vs_start st) fs' region' cursor (vs_cpe st) (vs_footer st) (vs_lex st) (vs_vec st) (vs_pending st))
+      Ok (mkVS (vs_start st) fs' region' cursor cursor (vs_footer st) (vs_lex st) (vs_vec st) (vs_pending st))
   | Err k => Err k
   | Panic s => Panic s
   end.
 
-(* Memvid::vacuum *)
-Definition vacuum (st : vstate) (ix : bytes) : outcome vstate :=
+(* Memvid::vacuum up to and including rebuild_indexes (the whole function before fix 4c0da7f) *)
+Definition vacuum_core (st : vstate) (ix : bytes) : outcome vstate :=
   match rewrite (checkpoint st) with
   | Ok st1 => Ok (rebuild st1 ix)
+  | Err k => Err k
+  | Panic s => Panic s
+  end.
+
+(* Memvid::vacuum (since fix 4c0da7f): ... rebuild_indexes; then, like commit_from_records,
+   persist_sketch_track() when the track is non-empty (written at the footer offset, i.e. after the index
+   image; the footer offset moves up by its length: vs_footer below is therefore a LOWER bound of the
+   real footer offset and only <= statements are made about it), rewrite_toc_footer,
+   wal.record_checkpoint (no record stays pending), persist_header, sync. *)
+Definition vacuum (st : vstate) (ix : bytes) : outcome vstate :=
+  match vacuum_core st ix with
+  | Ok s => Ok (checkpoint s)
   | Err k => Err k
   | Panic s => Panic s
   end.
@@ -208,6 +222,16 @@ Definition lex_docs (fs : list vframe) : list N :=
 Definition time_entries (fs : list vframe) : list N :=
   map vf_id (filter (fun f => vf_active f && (vf_role f =? 0)) fs).
 
-(* the class of the known finding F-C42-1: the rewritten payloads need more room than the old payload
-   region had (only possible when active frames shared a window: bytes are duplicated) *)
-Definition known_overflow (st : vstate) : bool := vs_cpe st <? vs_start st + active_bytes (vs_frames st).
+(* HISTORICAL (before fix f791181, finding F-C42-1): vacuum left cached_payload_end at its old value, so
+   the index image was written at the pre-compaction payload end -- over the rewritten payloads whenever
+   data start + active bytes exceeded it (frames sharing one window each get their own copy). *)
+Definition with_cpe (st : vstate) (cpe : N) : vstate :=
+  mkVS (vs_start st) (vs_frames st) (vs_region st) (vs_data_end st) cpe (vs_footer st)
+       (vs_lex st) (vs_vec st) (vs_pending st).
+Definition vacuum_pre_f791181 (st : vstate) (ix : bytes) : outcome vstate :=
+  match rewrite (checkpoint st) with
+  | Ok st1 => Ok (rebuild (with_cpe st1 (vs_cpe st)) ix)
+  | Err k => Err k
+  | Panic s => Panic s
+  end.
+
